@@ -24,6 +24,7 @@ import (
 	"runtime"
 	"strings"
 	"sync"
+	"sync/atomic"
 	"testing"
 	"time"
 )
@@ -48,6 +49,46 @@ type vfcmWorld struct {
 	hold     map[string]time.Duration
 	entered  chan int
 	exited   chan int
+	// accept gate (stopgate scenario): the accept loop is held right after Accept returned a connection
+	holdAccept  int32         // how many of the next accepted connections to hold (atomic)
+	acceptHeld  chan struct{} // signalled when one is being held
+	acceptGo    chan struct{} // closed to let them go
+}
+
+// vfcmManualListen: the next world starts its accept loop over a listener whose connections can be held between
+// Accept and registerConnection (what Server.Listen does, minus TLS, with the listener wrapped)
+var vfcmManualListen bool
+
+type vfcmGateListener struct {
+	net.Listener
+	w *vfcmWorld
+}
+
+func (l *vfcmGateListener) Accept() (net.Conn, error) {
+	c, err := l.Listener.Accept()
+	if err != nil {
+		return nil, err
+	}
+	return &vfcmGateConn{Conn: c, w: l.w}, nil
+}
+
+type vfcmGateConn struct {
+	net.Conn
+	w    *vfcmWorld
+	once sync.Once
+}
+
+// RemoteAddr is the first thing the accept loop asks of a new connection: the gate sits there
+func (c *vfcmGateConn) RemoteAddr() net.Addr {
+	c.once.Do(func() {
+		if atomic.AddInt32(&c.w.holdAccept, -1) >= 0 {
+			c.w.acceptHeld <- struct{}{}
+			<-c.w.acceptGo
+		} else {
+			atomic.AddInt32(&c.w.holdAccept, 1)
+		}
+	})
+	return c.Conn.RemoteAddr()
 }
 
 var vfcmCur struct {
@@ -79,19 +120,37 @@ func vfcmHook(ev string, kv ...any) {
 	switch ev {
 	case "cm.accept", "cm.reject", "cm.unreg":
 		cnt, _ := arg("count").(int)
-		m := M{"ev": ev, "port": vfpsConnPort(arg("conn")), "count": cnt}
+		m := M{"ev": ev, "port": vfcmConnKey(arg("conn")), "count": cnt}
 		if mx, ok := arg("max").(int); ok {
 			m["max"] = mx
 		}
 		w.emit(m)
 	case "cm.reap", "cl.start":
-		w.emit(M{"ev": ev, "port": vfpsConnPort(arg("conn"))})
+		w.emit(M{"ev": ev, "port": vfcmConnKey(arg("conn"))})
 	case "sv.stop.cancel", "sv.stop.closed":
 		w.emit(M{"ev": ev})
 	case "sv.stop.returned":
 		ok, _ := arg("ok").(bool)
 		w.emit(M{"ev": ev, "ok": ok})
 	}
+}
+
+// vfcmConnKey identifies a connection by the client's address and port (clients come from several loopback addresses)
+func vfcmConnKey(v interface{}) int {
+	if c, ok := v.(net.Conn); ok && c != nil {
+		if a, ok := c.RemoteAddr().(*net.TCPAddr); ok {
+			return vfcmAddrKey(a)
+		}
+	}
+	return 0
+}
+
+func vfcmAddrKey(a *net.TCPAddr) int {
+	k := a.Port
+	if ip := a.IP.To4(); ip != nil {
+		k += 100000 * int(ip[3])
+	}
+	return k
 }
 
 // vfcmCensus counts goroutines by role from the stacks of all goroutines.
@@ -148,14 +207,18 @@ type vfcmClient struct {
 	dead bool
 }
 
-func (w *vfcmWorld) dial(c int) *vfcmClient {
+func (w *vfcmWorld) dial(c int) *vfcmClient { return w.dialFrom(c, "127.0.0.1") }
+
+// dialFrom connects from the given loopback address (all of 127/8 is local)
+func (w *vfcmWorld) dialFrom(c int, from string) *vfcmClient {
 	w.emit(M{"ev": "cn.dial", "c": c})
-	conn, err := net.DialTimeout("tcp", fmt.Sprintf("127.0.0.1:%d", w.port), 2*time.Second)
+	d := net.Dialer{Timeout: 2 * time.Second, LocalAddr: &net.TCPAddr{IP: net.ParseIP(from)}}
+	conn, err := d.Dial("tcp", fmt.Sprintf("127.0.0.1:%d", w.port))
 	if err != nil {
 		w.emit(M{"ev": "cn.dialed", "c": c, "ok": false})
 		return nil
 	}
-	cl := &vfcmClient{c: c, conn: conn, port: conn.LocalAddr().(*net.TCPAddr).Port, raw: w.raw, xid: uint32(c) * 1000}
+	cl := &vfcmClient{c: c, conn: conn, port: vfcmAddrKey(conn.LocalAddr().(*net.TCPAddr)), raw: w.raw, xid: uint32(c) * 1000}
 	w.mu.Lock()
 	if _, used := w.ports[cl.port]; used {
 		w.dup = true
@@ -264,8 +327,14 @@ func (w *vfcmWorld) closeClient(cl *vfcmClient) {
 // ---------------------------------------------------------------- world
 
 func vfcmNewWorld(t *testing.T, max, idleMs int, exported bool) *vfcmWorld {
+	return vfcmNewWorldOpt(t, max, idleMs, exported, nil)
+}
+
+// vfcmNewWorldOpt: opt may adjust the export options (address filter, rate limiting)
+func vfcmNewWorldOpt(t *testing.T, max, idleMs int, exported bool, opt func(*ExportOptions)) *vfcmWorld {
 	w := &vfcmWorld{t: t, ports: map[int]int{}, conns: map[int]*vfcmClient{}, max: max, idleMs: idleMs, raw: exported,
-		nameConn: map[string]int{}, hold: map[string]time.Duration{}, entered: make(chan int, 16), exited: make(chan int, 16)}
+		nameConn: map[string]int{}, hold: map[string]time.Duration{}, entered: make(chan int, 16), exited: make(chan int, 16),
+		acceptHeld: make(chan struct{}, 8), acceptGo: make(chan struct{})}
 	w.fs = vfNewFS()
 	for i := 0; i < 13; i++ {
 		w.fs.vfPoke(fmt.Sprintf("/g%d", i), "file", []byte("x"), "", 0644)
@@ -301,8 +370,12 @@ func vfcmNewWorld(t *testing.T, max, idleMs int, exported bool) *vfcmWorld {
 	}
 	w.fs.vfPoke("/d", "D", nil, "", 0755)
 	w.fs.vfPoke("/d/x", "file", []byte("y"), "", 0644)
-	n, err := New(w.fs, ExportOptions{Squash: "root", MaxConnections: max, IdleTimeout: time.Duration(idleMs) * time.Millisecond,
-		EnableDirCache: true, MaxWorkers: 8})
+	eo := ExportOptions{Squash: "root", MaxConnections: max, IdleTimeout: time.Duration(idleMs) * time.Millisecond,
+		EnableDirCache: true, MaxWorkers: 8}
+	if opt != nil {
+		opt(&eo)
+	}
+	n, err := New(w.fs, eo)
 	if err != nil {
 		t.Fatalf("New: %v", err)
 	}
@@ -325,7 +398,19 @@ func vfcmNewWorld(t *testing.T, max, idleMs int, exported bool) *vfcmWorld {
 		}
 		srv.logger = log.New(io.Discard, "", 0)
 		srv.SetHandler(n)
-		if err := srv.Listen(); err != nil {
+		if vfcmManualListen {
+			vfcmManualListen = false
+			ln, err := net.Listen("tcp", "127.0.0.1:0")
+			if err != nil {
+				t.Fatalf("listen: %v", err)
+			}
+			srv.listener = &vfcmGateListener{Listener: ln, w: w}
+			srv.options.Port = ln.Addr().(*net.TCPAddr).Port
+			ph := &NFSProcedureHandler{server: srv}
+			srv.wg.Add(2)
+			go func() { defer srv.wg.Done(); srv.idleConnectionCleanupLoop() }()
+			go func() { defer srv.wg.Done(); srv.acceptLoop(ph) }()
+		} else if err := srv.Listen(); err != nil {
 			t.Fatalf("Listen: %v", err)
 		}
 		w.srv = srv
@@ -497,7 +582,7 @@ func TestVF_ConnMgr(t *testing.T) {
 	defer tr.Close()
 	hist, events, nontrivial, void := 0, 0, 0, 0
 	var samples []M
-	kinds := []string{"limit", "idle", "random", "export", "stopbusy", "stoprace", "closebusy", "managed", "midcall", "random"}
+	kinds := []string{"limit", "idle", "random", "export", "stopbusy", "stoprace", "closebusy", "managed", "midcall", "acl", "stopgate"}
 	// accepts racing with Stop are a matter of microseconds: a batch of additional (cheap) stoprace histories follows
 	extra := vfEnvInt("VF_STOPRACE", 6)
 	for h := 0; h < nh+extra; h++ {
@@ -529,6 +614,10 @@ func TestVF_ConnMgr(t *testing.T) {
 			w, reset = vfcmCloseBusy(t, h, rnd)
 		case "midcall":
 			w, reset = vfcmMidCall(t, h, rnd)
+		case "acl":
+			w, reset = vfcmACL(t, h, rnd)
+		case "stopgate":
+			w, reset = vfcmStopGate(t, h, rnd)
 		default:
 			w, reset = vfcmRandom(t, h, rnd)
 		}
@@ -612,6 +701,18 @@ func vfcmLimit(t *testing.T, h int, rnd *rand.Rand) (*vfcmWorld, M) {
 	return w, vfcmReset(h, "limit", w, false)
 }
 
+// counted reports whether the server has counted the connection (cm.accept logged for it)
+func (w *vfcmWorld) counted(cl *vfcmClient) bool {
+	w.mu.Lock()
+	defer w.mu.Unlock()
+	for _, e := range w.ev {
+		if e["ev"] == "cm.accept" && e["port"] == cl.port {
+			return true
+		}
+	}
+	return false
+}
+
 // waitUnreg waits (bounded) for the hook event that uncounts the connection; a real-time observation
 func (w *vfcmWorld) waitUnreg(cl *vfcmClient, d time.Duration) {
 	deadline := time.Now().Add(d)
@@ -633,10 +734,19 @@ func (w *vfcmWorld) waitUnreg(cl *vfcmClient, d time.Duration) {
 
 // idle: IdleTimeout 100 ms; one connection stays silent for more than a second, one keeps talking
 func vfcmIdle(t *testing.T, h int, rnd *rand.Rand) (*vfcmWorld, M) {
-	w := vfcmNewWorld(t, 4, 100, false)
+	// rate limiting is on with a budget of 4 requests that never refills: the last thing that happens on the
+	// connection "limited" is a call the limiter refuses (idle reaping x rate limiting)
+	w := vfcmNewWorldOpt(t, 5, 100, false, func(eo *ExportOptions) {
+		eo.EnableRateLimiting = true
+		eo.RateLimitConfig = vfpsLimiterConfig(4)
+	})
 	quiet := w.dial(1)
 	w.ping(quiet, 2*time.Second)
 	never := w.dial(2) // never sends anything
+	limited := w.dial(4)
+	for k := 0; k < 4; k++ { // the budget is gone after the third of these
+		w.ping(limited, 2*time.Second)
+	}
 	busy := w.dial(3)
 	t0 := time.Now()
 	for time.Since(t0) < 1100*time.Millisecond {
@@ -645,7 +755,7 @@ func vfcmIdle(t *testing.T, h int, rnd *rand.Rand) (*vfcmWorld, M) {
 		}
 		time.Sleep(30 * time.Millisecond)
 	}
-	for _, cl := range []*vfcmClient{quiet, never} {
+	for _, cl := range []*vfcmClient{quiet, never, limited} {
 		if cl == nil {
 			continue
 		}
@@ -885,6 +995,95 @@ loop:
 	w.afterStop()
 	w.nfsCall(1, "close")
 	return w, vfcmReset(h, "midcall", w, false)
+}
+
+// stopgate: Accept has handed one or two connections to the accept loop, which is held before it registers them;
+// Stop cancels, closes the listener and closes the registered connections; then the accept loop goes on: the late
+// connections are registered after Stop has closed everything it knew of. Stop must still leave nothing served.
+func vfcmStopGate(t *testing.T, h int, rnd *rand.Rand) (*vfcmWorld, M) {
+	vfcmManualListen = true
+	w := vfcmNewWorld(t, 4, 300000, false)
+	c1 := w.dial(1)
+	w.ping(c1, 2*time.Second)
+	w.ping(c1, 2*time.Second)
+	atomic.StoreInt32(&w.holdAccept, 1)
+	late := w.dial(2)
+	select {
+	case <-w.acceptHeld:
+	case <-time.After(5 * time.Second):
+		t.Fatalf("stopgate: the accept loop did not pick the connection up")
+	}
+	stopped := make(chan struct{})
+	go func() { defer close(stopped); w.stop(1) }()
+	// wait until Stop has closed the connections it knew of
+	deadline := time.Now().Add(5 * time.Second)
+	for {
+		w.mu.Lock()
+		seen := false
+		for _, e := range w.ev {
+			if e["ev"] == "sv.stop.closed" {
+				seen = true
+			}
+		}
+		w.mu.Unlock()
+		if seen || time.Now().After(deadline) {
+			break
+		}
+		time.Sleep(200 * time.Microsecond)
+	}
+	close(w.acceptGo)
+	<-stopped
+	// the late connection: is it still answered?
+	if late != nil {
+		w.emit(M{"ev": "cl.send", "c": late.c, "res": false})
+		res, _ := late.roundtrip(NFS_PROGRAM, NFS_V3, 0, nil, 500*time.Millisecond)
+		if res == "reply" {
+			w.emit(M{"ev": "cl.reply", "c": late.c})
+		} else {
+			late.dead = true
+			w.emit(M{"ev": "cl.dead", "c": late.c, "how": res})
+		}
+	}
+	w.afterStop()
+	w.stop(2)
+	w.nfsCall(1, "close")
+	return w, vfcmReset(h, "stopgate", w, false)
+}
+
+// acl: AllowedIPs admits 127.0.0.1 only; attempts from other loopback addresses are turned away. They are not
+// accepted connections: they must not hold a MaxConnections slot once they have ended, and clients from the
+// allowed address keep finding room (address filter x connection limit).
+func vfcmACL(t *testing.T, h int, rnd *rand.Rand) (*vfcmWorld, M) {
+	max := 2 + rnd.Intn(2)
+	w := vfcmNewWorldOpt(t, max, 300000, false, func(eo *ExportOptions) { eo.AllowedIPs = []string{"127.0.0.1"} })
+	c := 1
+	first := w.dial(c)
+	w.ping(first, 2*time.Second)
+	w.ping(first, 2*time.Second)
+	for k := 0; k < max+1; k++ { // more refused attempts than there are slots
+		c++
+		cl := w.dialFrom(c, fmt.Sprintf("127.0.0.%d", 2+rnd.Intn(3)))
+		w.ping(cl, time.Second)
+		if cl != nil && w.counted(cl) {
+			w.waitUnreg(cl, 2*time.Second) // it has ended (the server closed it): it must not stay counted
+		}
+		if cl != nil {
+			cl.dead = true
+		}
+	}
+	// allowed clients fill the remaining slots and one more is turned away at the limit
+	for k := 0; k < max; k++ {
+		c++
+		cl := w.dial(c)
+		if w.ping(cl, 2*time.Second) {
+			w.ping(cl, 2*time.Second)
+		}
+	}
+	w.ping(first, 2*time.Second)
+	w.stop(1)
+	w.afterStop()
+	w.nfsCall(1, "close")
+	return w, vfcmReset(h, "acl", w, false)
 }
 
 // export: the server AbsfsNFS.Export starts (raw framing); Close / Unexport must stop it, release every handle
